@@ -8,8 +8,8 @@
 #include <dirent.h>
 #include <sys/wait.h>
 
-typedef struct Src { char name[48]; char *text; bool multi; bool bad; } Src;
-static Src srcs[64]; static int nsrcs;
+typedef struct Src { char name[48]; char *text; bool multi; bool bad; bool example; } Src;
+static Src srcs[160]; static int nsrcs;
 static char *slurp_text(const char *p) {
     FILE *f = __real_fopen(p, "rb"); if (!f) return NULL;
     Buf b = {0}; char t[4096]; size_t n; while ((n = fread(t, 1, sizeof t, f)) > 0) buf_put(&b, t, n);
@@ -18,20 +18,22 @@ static char *slurp_text(const char *p) {
 static int cmp_src(const void *a, const void *b) { return strcmp(((const Src *)a)->name, ((const Src *)b)->name); }
 static void srcs_load(void) {
     if (nsrcs) return;
-    const char *dirs[] = { "/verif/corpus", "/verif/corpus19" };
-    for (int d = 0; d < 2; d++) {
+    const char *dirs[] = { "/verif/corpus", "/verif/corpus19", "/repo/examples/language" };
+    for (int d = 0; d < 3; d++) {
         DIR *D = opendir(dirs[d]); if (!D) continue;
         struct dirent *e;
-        while ((e = readdir(D)) && nsrcs < 60) {
+        while ((e = readdir(D)) && nsrcs < 150) {
             size_t l = strlen(e->d_name); if (l < 6 || strcmp(e->d_name + l - 5, ".nano")) continue;
+            if (d == 2 && strncmp(e->d_name, "nl_", 3) != 0) continue;   /* the project's own single-file examples */
             char p[300]; snprintf(p, sizeof p, "%s/%s", dirs[d], e->d_name);
             char *t = slurp_text(p); if (!t) continue;
+            if (d == 2 && (strstr(t, "\nfrom \"") || strstr(t, "\nimport ") || strncmp(t, "from ", 5) == 0 || strncmp(t, "import ", 7) == 0)) { free(t); continue; }   /* module imports need the real tree layout */
             /* @TOKEN@ -> 5 */
             Buf o = {0};
             for (char *c = t; *c;) { if (strncmp(c, "@TOKEN@", 7) == 0) { buf_put(&o, "5", 1); c += 7; } else { buf_put(&o, c, 1); c++; } }
             buf_put(&o, "", 1); free(t);
             Src *s = &srcs[nsrcs++]; memset(s, 0, sizeof *s);
-            snprintf(s->name, sizeof s->name, "%.*s", (int)(l - 5), e->d_name); s->text = (char *)o.d; s->bad = strncmp(e->d_name, "bad_", 4) == 0;
+            snprintf(s->name, sizeof s->name, "%.*s", (int)(l - 5), e->d_name); s->text = (char *)o.d; s->bad = strncmp(e->d_name, "bad_", 4) == 0; s->example = d == 2;
         }
         closedir(D);
     }
@@ -194,7 +196,7 @@ static void compile_once(EPlan *P, Cfg *c, uint64_t seed, Outs *o) {
 
 /* reference (configuration 0) cache, zygote side */
 typedef struct ERef { char key[64]; Outs o; bool have; char crash_kind[64], crash_site[128]; } ERef;
-static ERef erefs[160]; static int nerefs;
+static ERef erefs[400]; static int nerefs;
 static ERef *eref_lookup(const char *key) { for (int i = 0; i < nerefs; i++) if (!strcmp(erefs[i].key, key)) return &erefs[i]; return NULL; }
 typedef struct RA { EPlan *P; } RA;
 static void put_buf(int fd, Buf *b) { uint32_t n = (uint32_t)b->len; ssize_t w = __real_write(fd, &n, 4); size_t off = 0; while (off < b->len) { w = __real_write(fd, b->d + off, b->len - off); if (w <= 0) break; off += (size_t)w; } }
@@ -210,7 +212,7 @@ static void fam_prepare(uint64_t seed, const RunOpts *o) {
     static EPlan P; uint64_t s = seed;
     if (o->planfile) { if (!plan_parse(&P, &s, o->planfile)) return; } else plan_gen(&P, seed, o);
     char key[64]; snprintf(key, sizeof key, "%s/%d", P.prog, P.tool);
-    if (eref_lookup(key) || nerefs == 160) return;
+    if (eref_lookup(key) || nerefs == 400) return;
     ERef *r = &erefs[nerefs++]; memset(r, 0, sizeof *r); snprintf(r->key, sizeof r->key, "%s", key);
     RA ra = { &P }; Buf out = {0}, asan = {0}; int st = 0; char role[48];
     fork_collect(eref_child, &ra, &out, &st, role, sizeof role, &asan);
@@ -238,7 +240,7 @@ static void fam_run(uint64_t seed, const RunOpts *o, Result *r) {
     if (ref && !ref->have && strstr(ref->crash_kind, "buffer-overflow")) {
         /* the compiler read or wrote outside one of its objects while compiling a well-formed input: what it emits then
          * depends on neighbouring memory, i.e. on the memory layout of that process */
-        bool badinput = strncmp(P.prog, "bad_", 4) == 0;
+        bool badinput = strncmp(P.prog, "bad_", 4) == 0 || strncmp(P.prog, "nl_", 3) == 0;   /* examples: compiler robustness on them is C09's business */
         if (!badinput) {
             res_violation(r, "C19", "compiler-accesses-outside-object:%s:%s:%s", P.tool ? "nanoc" : "nano_virt", ref->crash_kind, ref->crash_site);
             buf_printf(&r->detail, "%s on %s: AddressSanitizer %s in %s while compiling in configuration 0; the bytes involved end up in (or steer) the artifact, so the output is a function of memory layout\n",
